@@ -346,7 +346,9 @@ func runR_C18(c *Ctx) {
 	runG9(c, "derive.IsComparable")
 	// at-most-once per Equal class relies on the bucket key being a function of the value: the hash plugin's
 	// value-only / ordered-traversal rules and the sort plugin's order rules are part of this property's mechanism
-	hashCoreRules(c, false)
+	// with the float leaf rule: +0 and -0 are Equal (==) but hash by bit pattern, so two Equal argument tuples that are not
+	// ==-comparable land in different buckets and f is invoked twice (confirmed on the real binary; known finding shared with C04)
+	hashCoreRules(c, true)
 	sortLessRules(c)
 	compareCoreRules(c)
 	// without the leaf-semantics rule: Equal's nil-blindness for []byte components is masked in mem by the hash, which
